@@ -9,12 +9,12 @@ RULE = ("all 256 byte values as the last element of a script (opcodes the parser
         "negative, boundary, huge and over-long index / position / length / shift-count operands for PICK, ROLL, SPLIT, NUM2BIN, "
         "LSHIFT, RSHIFT; zero divisors; hand-built bit trees (coinbase bit, flat conditional opcodes, odd PUSHDATA codes, conditionals "
         "with arbitrary codes, empty branches, nesting to depth 200); random programs and random byte strings; every case is stepped "
-        "with next() to the end, stepped once more, and run() on a fresh interpreter; non-trivial = the script parses (the model "
+        "Interpreter::from_transaction on one-input transactions with CHECKSIG / CHECKMULTISIG stacks of every shape (counts negative, zero, above the depth, huge, over-long; data that is not a signature); every case is stepped with next() to the end, stepped once more, and run() on a fresh interpreter; non-trivial = the script parses (the model "
         "output is OK:...); distinct by (op, arguments)")
 TRUSTED = c14.TRUSTED[:1]
 ASSUMPTIONS = ["native-stack exhaustion of the recursive parser / Vec<ScriptBit> clone and drop on very deep nesting is outside the Gallina model (recorded finding of C02/C09)",
                "memory: OP_NUM2BIN and OP_LSHIFT allocate what their numeric operand asks for (up to 2 GiB / 256 MiB); shift counts above 4000 (on non-zero values) and NUM2BIN lengths above 5000 are not generated",
-               "CHECKSIG-family opcodes are exercised without a transaction only (Interpreter::from_script): they return Err before touching the stack; their transaction-side behaviour is C15's"]
+               "CHECKSIG-family opcodes: without a transaction they return Err before touching the stack; with a transaction (interp.txrun) only data that is not a valid signature is supplied, so the transaction side (C15) always answers Err and is modelled as such"]
 
 push, num, op, ALPHA = c14.push, c14.num, c14.op, c14.ALPHA
 
@@ -72,6 +72,12 @@ def generate(rng, tier):
         for z in nums_around(n):
             add([push(x), push(num(z)), op(127)])
             add([push(num(z)), op(127)])
+    for idx in [0, 127, 128, 255, 256, 257, 299, 300, 301, 65535, 65536, 2 ** 32 + 299]:
+        add(["r:74:300", push(num(idx)), op(121)]); add(["r:74:300", push(num(idx)), op(122)])
+    for n in [255, 256, 257, 65535, 65536]:
+        item = ("4c%02x" % n if n < 256 else "4d" + n.to_bytes(2, "little").hex() if n < 65536 else "4e" + n.to_bytes(4, "little").hex()) + "+l:3:%d" % n
+        for pos in [n - 1, n, n + 1, 2 ** 32 + n]:
+            add([item, push(num(pos)), op(127)])
     # NUM2BIN: length operand (top); never above 5000
     for x in ["", "00", "80", "01", "81", "ff00", "ff80", "0100", "00000080", "0102030405", "BLOB", "ffffff7f", "ffffffff"]:
         n = 80 if x == "BLOB" else len(x) // 2
@@ -127,6 +133,34 @@ def generate(rng, tier):
         add(["51", "r:63:%d" % depth, "r:68:%d" % depth])
         add(["00", "r:64:%d" % depth, "52", "r:68:%d" % depth])
         add(["r:63:%d" % depth, "r:68:%d" % (depth - 1)])
+
+    # 3b. Interpreter::from_transaction: CHECKSIG family with a transaction present (data that is not a signature:
+    #     every path ends in Err; what is tied is the stack protocol, the count checks and the absence of panics)
+    addx = lambda u, l, i=0: cases.append(("interp.txrun", [S(u) if u else "", S(l) if l else "", str(i)]))
+    garbage = ["", "00", "01", "41", "0141", "c3", "ff", "3006020101020101", "300602010102010141", "02" + "11" * 32, "BLOB"]
+    for o in (172, 173):
+        for st in [[], ["41"], ["0141", "02" + "11" * 32], ["", ""], ["00", "02" + "11" * 32], ["300602010102010141", "02" + "11" * 32], ["ff", "ff"], ["BLOB", "BLOB"]]:
+            addx([push(x) for x in st], [op(o)])
+            addx([push(x) for x in st], ["ab", op(o)])
+            addx([push(x) for x in st] + ["51", "63", "ab", "68"], ["ab", "51", "75", op(o)])
+    counts = [-(2 ** 31) + 1, -1, 0, 1, 2, 3, 4, 5, 16, 17, 127, 128, 2 ** 31 - 1, 2 ** 31, 2 ** 40]
+    for o in (174, 175):
+        for nk in counts:
+            for ns in [-1, 0, 1, 2, 3, 2 ** 31 - 1, 2 ** 32]:
+                if rng.random() < (0.35 if tier == "quick" else 1.0):
+                    for depth_extra in (0, 1):
+                        nkeys = max(0, min(nk, 4)) - (1 if depth_extra == 0 and rng.random() < 0.3 else 0)
+                        nsigs = max(0, min(ns, 4)) - (1 if depth_extra == 0 and rng.random() < 0.3 else 0)
+                        items = (["00"] if depth_extra or rng.random() < 0.7 else []) + [push(rng.choice(garbage)) for _ in range(max(0, nsigs))] \
+                            + [push(num(ns))] + [push(rng.choice(garbage)) for _ in range(max(0, nkeys))] + [push(num(nk))]
+                        addx(items[: len(items) // 2], items[len(items) // 2:] + [op(o)])
+        for h in odd:
+            addx(["00", "0141", "51"], [push("02" + "11" * 32), push(h), op(o)])
+            addx(["00", "0141", push(h)], [push("02" + "11" * 32), "51", op(o)])
+        addx([], [op(o)]); addx(["51"], [op(o)]); addx(["51", "51"], [op(o)]); addx(["00", "51"], ["51", op(o)])
+    for idx in (1, 2, 2 ** 32, 2 ** 63):
+        addx(["51"], ["51"], idx)
+    addx(["63"], ["68"]); addx(["51", "63"], ["68"]); addx(["0501"], ["51"]); addx(["51"], ["0501"]); addx([], []); addx(["51", "52"], ["93"])
 
     # 4. random programs, random byte strings
     nprog = 300 if tier == "quick" else 4000
